@@ -2426,6 +2426,23 @@ def _values_check(f, ff_info):
     error_flag = 0
     mattol = 1.0e-12
 
+    if mqq.shape[0] == 0:
+        # no modal DOF: only KBB can be checked
+        f.write("\nMass values check:\n\tThere are no modal DOF.\n")
+        f.write("\nStiffness values checks:\n")
+        _prt_chk_str(
+            f,
+            (
+                "\tMaximum value of KBB              = {:11g}"
+                "  (should be zero only if statically-determinate)"
+            ),
+            np.max(np.abs(kbb)),
+            mattol,
+            good="check",
+            bad="check",
+        )
+        return
+
     f.write("\nMass values check:\n")
     mxmqqerr = np.max(np.abs(np.diag(mqq) - 1.0))
     error_flag += _prt_chk_str(
